@@ -1,42 +1,50 @@
 ------------------------------ MODULE PicGeom ------------------------------
 (***************************************************************************)
-(* C19 (and the picture / sound plane part of C02).                        *)
+(* C19 (and the picture / sound part of C02).                              *)
 (*                                                                         *)
 (* Abstract specification of picture and sound buffers of Upipe            *)
-(* (ubuf_pic_mem / ubuf_sound_mem):                                        *)
+(* (ubuf_pic_mem / ubuf_sound_mem) and of the block views of their planes  *)
+(* (UBUF_BLOCK_MEM_ALLOC_FROM_PIC / _SOUND):                               *)
 (*                                                                         *)
 (*  - a manager GEOMETRY is a record                                       *)
 (*      [kind, mp, planes = << [hsub, vsub, mps] .. >>,                    *)
 (*       hmpre, hmapp (macropixels), vpre, vapp (lines), align, aoff,      *)
 (*       basemod]                                                          *)
 (*    (sound: kind = "sound", mp = 1, every plane [1, 1, sample_size],     *)
-(*     no margins: a sound buffer of N samples is a one-line picture);     *)
+(*     no margins: a sound buffer of N samples is a one-line picture of N  *)
+(*     pixels whose planes are the channel planes; packed sound is one     *)
+(*     plane whose sample size is channels * octets);                      *)
 (*  - an allocation creates an AREA with a canvas of                       *)
 (*    (hmpre+hmsize+hmapp) x (vpre+vsize+vapp) macropixels x lines; the    *)
 (*    memory of plane p is the offset set AllocSet(g,c,p);                 *)
 (*  - a buffer (handle) is a WINDOW                                        *)
 (*    [hmpre, hmsize, hmapp, vpre, vsize, vapp] over the canvas of its     *)
-(*    area; dup shares the area;                                           *)
+(*    area; dup shares the area; a block VIEW of plane p of a buffer is a  *)
+(*    further owner of the area, frozen on the window the buffer had;      *)
 (*  - Cells(g,c,w,p,r) maps each visible (macro)pixel of an accepted       *)
 (*    mapping request r = [ho, vo, hs, vs] (pixels / lines; -1 = to the    *)
 (*    end, negative offsets = from the end) to its octet range with the    *)
 (*    SPECIFIED formula  origin + line * stride + column * mps;            *)
 (*  - pixel values are identified by canvas coordinate: the content of an  *)
-(*    area is the list of the fills performed on it, each remembering the  *)
-(*    window it was made through.                                          *)
+(*    area is the list of the writes performed on it (fills of a whole     *)
+(*    window, pokes of one cell, pokes of one octet through a view), each  *)
+(*    remembering the canvas cells it touched.                             *)
 (*                                                                         *)
-(* Properties: Inside, InjectiveMap, CanvasInjective, GranularityP,        *)
-(* WindowsInCanvas, WriteOnlySingle, DupSees (invariants), CropPreserves,  *)
-(* Isolation, StructuralOpsDontWrite (action properties).                  *)
+(* Properties (C19): WindowsInCanvas, Inside, InjectiveMap,                *)
+(* CanvasInjective, GranularityP, MapIsWindowCell, AllocGranular, DupSees  *)
+(* (invariants), CropPreserves (action property).                          *)
+(* Properties (C02): WriteOnlySingle (invariant), Isolation,               *)
+(* StructuralOpsDontWrite (action properties).                             *)
 (*                                                                         *)
 (* The same Do-actions are used by the exhaustive configurations          *)
-(* (MCPicGeom*.cfg), by the behaviour generator (Record = TRUE: hist holds *)
-(* the calls and the predicted results) and by the trace validation        *)
-(* module PicGeom_Trace.tla.                                               *)
+(* (MCPicGeom*.cfg, MCSoundGeom*.cfg), by the behaviour generator          *)
+(* (Record = TRUE: hist holds the calls and the predicted results) and by  *)
+(* the trace validation module PicGeom_Trace.tla.                          *)
 (***************************************************************************)
 EXTENDS Naturals, Integers, Sequences, FiniteSets, TLC, Json
 
-CONSTANTS Geos,       \* geometries explored (records, see MCPicGeom.tla)
+CONSTANTS Geos,       \* tags of the geometry sets explored (see MCPicGeom.tla / MCSoundGeom.tla)
+          GeoSet(_),  \* tag -> set of geometries (records); evaluated lazily
           Handles,    \* buffer handles
           MaxOps,     \* length of a behaviour
           MaxResize,  \* length of a resize chain
@@ -46,14 +54,15 @@ CONSTANTS Geos,       \* geometries explored (records, see MCPicGeom.tla)
 VARIABLES geo,      \* geometry of the manager
           win,      \* handle -> window
           area,     \* handle -> area id (0 = handle unused)
+          view,     \* handle -> block view [p, w, stride, size] (p = 0: a buffer)
           canv,     \* area id -> canvas [hm, v]
-          content,  \* area id -> sequence of fills [k, w]
-          nextk,    \* next fill id
+          content,  \* area id -> sequence of writes
+          nextk,    \* next write id
           last,     \* last operation with its (predicted) result
           hist,     \* recorded behaviour
           nops, nrs, pick
 
-vars == <<geo, win, area, canv, content, nextk, last, hist, nops, nrs, pick>>
+vars == <<geo, win, area, view, canv, content, nextk, last, hist, nops, nrs, pick>>
 
 -----------------------------------------------------------------------------
 (* geometry *)
@@ -65,6 +74,7 @@ Divides(d, n) == n % d = 0
 AlignUp(n, a) == IF a = 0 THEN n ELSE ((n + a - 1) \div a) * a
 
 NoWin == [hmpre |-> 0, hmsize |-> 0, hmapp |-> 0, vpre |-> 0, vsize |-> 0, vapp |-> 0]
+NoView == [p |-> 0, w |-> NoWin, stride |-> 0, size |-> 0]
 
 (* memory layout of an area with canvas c: one allocation per plane *)
 Stride(g, c, p) == AlignUp((c.hm \div g.planes[p].hsub) * g.planes[p].mps, g.align)
@@ -98,7 +108,8 @@ InWindow(g, w, n) == /\ n.ho >= 0 /\ n.vo >= 0 /\ n.hs >= 0 /\ n.vs >= 0
 Granular(g, p, n) == /\ Divides(HGran(g, p), n.ho) /\ Divides(VGran(g, p), n.vo)
                      /\ (Variant = "accept_offgran"
                          \/ (Divides(HGran(g, p), n.hs) /\ Divides(VGran(g, p), n.vs)))
-MapValid(g, w, p, r) == LET n == MapNorm(g, w, r) IN InWindow(g, w, n) /\ Granular(g, p, n)
+MapValid(g, w, p, r) == LET n == MapNorm(g, w, r)
+                        IN (Variant = "map_no_range" \/ InWindow(g, w, n)) /\ Granular(g, p, n)
 
 \* "either": the statement is silent (empty window); "refused": busy or invalid
 MapVerdict(g, w, p, r, shared, mode) ==
@@ -110,7 +121,7 @@ MapVerdict(g, w, p, r, shared, mode) ==
      ELSE IF empty THEN "either" ELSE "ok"
 
 Compat(pred, got) == \/ pred = got
-                     \/ pred = "either" /\ got \in {"ok", "invalid"}
+                     \/ pred = "either" /\ got \in {"ok", "invalid", "null"}
                      \/ pred = "refused" /\ got \in {"busy", "invalid"}
 
 (* cells of a request: canvas coordinates of the first cell, numbers of
@@ -162,38 +173,43 @@ SResizeVerdict(w, q) ==
   LET n == SRNorm(w, q)
   IN IF n.off < 0 \/ n.size < 0 \/ n.off + n.size > w.hmsize THEN "invalid"
      ELSE IF n.size = 0 THEN "either" ELSE "ok"
-SRWin(w, n) == [w EXCEPT !.hmpre = w.hmpre + n.off, !.hmsize = n.size,
+SRWin(w, n) == [w EXCEPT !.hmpre = IF Variant = "sresize_keep_base" THEN w.hmpre ELSE w.hmpre + n.off,
+                         !.hmsize = n.size,
                          !.hmapp = w.hmapp + w.hmsize - n.off - n.size]
 
 AllocVerdict(g, W, H) ==
-  IF g.kind = "sound" THEN (IF W >= 1 /\ H = 1 THEN "ok" ELSE "null")
+  IF g.kind = "sound" THEN (IF W >= 1 /\ H = 1 THEN "ok" ELSE IF W = 0 /\ H = 1 THEN "either" ELSE "null")
   ELSE IF W <= 0 \/ H <= 0 THEN "null"
   ELSE IF \A p \in PlaneIds(g) :
             /\ (Variant = "alloc_offgran" \/ Divides(HGran(g, p), W))
             /\ Divides(VGran(g, p), H)
        THEN "ok" ELSE "null"
 
-(* content: value of the cell (cx, cy) of plane p of an area = the last fill
-   that covers it, with the coordinates it had inside that fill *)
+(* content: value of octet b of the cell (cx, cy) of plane p of an area = what
+   the last write that touched it put there *)
 PX0(g, w, p) == w.hmpre \div g.planes[p].hsub
 PY0(g, w, p) == w.vpre \div g.planes[p].vsub
 PNC(g, w, p) == w.hmsize \div g.planes[p].hsub
 PNL(g, w, p) == w.vsize \div g.planes[p].vsub
-Covers(g, pt, p, cx, cy) == /\ cx >= PX0(g, pt.w, p) /\ cx < PX0(g, pt.w, p) + PNC(g, pt.w, p)
-                            /\ cy >= PY0(g, pt.w, p) /\ cy < PY0(g, pt.w, p) + PNL(g, pt.w, p)
-RECURSIVE ValueAtI(_, _, _, _, _, _)
-ValueAtI(g, ps, idx, p, cx, cy) ==
-  IF idx = 0 THEN <<0, 0, 0>>
-  ELSE IF Covers(g, ps[idx], p, cx, cy)
-       THEN <<ps[idx].k, cx - PX0(g, ps[idx].w, p), cy - PY0(g, ps[idx].w, p)>>
-       ELSE ValueAtI(g, ps, idx - 1, p, cx, cy)
-ValueAt(g, ps, p, cx, cy) == ValueAtI(g, ps, Len(ps), p, cx, cy)
-\* octet written by fill k at cell (i, j), octet b of plane p (harness: code())
+Covers(g, w, p, cx, cy) == /\ cx >= PX0(g, w, p) /\ cx < PX0(g, w, p) + PNC(g, w, p)
+                           /\ cy >= PY0(g, w, p) /\ cy < PY0(g, w, p) + PNL(g, w, p)
+\* octet written by write k at cell (i, j) of its window, octet b of plane p
+\* (harness: code())
 Code(k, p, i, j, b) == ((i + 1) * 37 + (j + 1) * 101 + (p - 1) * 59 + b * 17 + k * 73) % 251
-ByteAt(g, ps, p, cx, cy, b) ==
-  LET v == ValueAt(g, ps, p, cx, cy)
-  IN IF v[1] = 0 THEN -1 ELSE Code(v[1], p, v[2], v[3], b)
-\* octets visible through window w in plane p, line by line (-1 = never written)
+RECURSIVE ByteAtI(_, _, _, _, _, _, _)
+ByteAtI(g, ps, idx, p, cx, cy, b) ==
+  IF idx = 0 THEN -1
+  ELSE LET e == ps[idx] IN
+       IF e.t = "fill" /\ Covers(g, e.w, p, cx, cy)
+       THEN Code(e.k, p, cx - PX0(g, e.w, p), cy - PY0(g, e.w, p), b)
+       ELSE IF e.t = "poke" /\ e.p = p /\ e.cx = cx /\ e.cy = cy
+       THEN Code(e.k, p, 0, 0, b)
+       ELSE IF e.t = "octet" /\ e.p = p /\ e.cx = cx /\ e.cy = cy /\ e.b = b
+       THEN e.v
+       ELSE ByteAtI(g, ps, idx - 1, p, cx, cy, b)
+\* -1 = never written
+ByteAt(g, ps, p, cx, cy, b) == ByteAtI(g, ps, Len(ps), p, cx, cy, b)
+\* octets visible through window w in plane p, line by line
 PlaneBytes(g, ps, w, p) ==
   LET nc == PNC(g, w, p)
       m == g.planes[p].mps
@@ -202,14 +218,34 @@ PlaneBytes(g, ps, w, p) ==
         IN ByteAt(g, ps, p, PX0(g, w, p) + (cell % nc), PY0(g, w, p) + (cell \div nc), (idx - 1) % m)]
 Visible(g, ps, w) == [p \in PlaneIds(g) |-> PlaneBytes(g, ps, w, p)]
 
+(* block view x = [p, w, stride, size] of a plane: octet i of the block is
+   octet (i % stride) of line (i \div stride) of the window; octets beyond
+   the visible cells of a line (margins, alignment) are not specified *)
+VLine(x, i) == IF x.stride = 0 THEN 0 ELSE i \div x.stride
+VCol(x, i) == IF x.stride = 0 THEN i ELSE i % x.stride
+ViewInWindow(g, x, i) == /\ i >= 0 /\ i < x.size
+                         /\ VLine(x, i) < PNL(g, x.w, x.p)
+                         /\ VCol(x, i) < PNC(g, x.w, x.p) * g.planes[x.p].mps
+ViewByte(g, ps, x, i) ==
+  IF ~ViewInWindow(g, x, i) THEN -1
+  ELSE ByteAt(g, ps, x.p, PX0(g, x.w, x.p) + VCol(x, i) \div g.planes[x.p].mps,
+              PY0(g, x.w, x.p) + VLine(x, i), VCol(x, i) % g.planes[x.p].mps)
+ViewBytes(g, ps, x) == [idx \in 1..x.size |-> ViewByte(g, ps, x, idx - 1)]
+
 -----------------------------------------------------------------------------
 (* actions; res = the outcome applied (the predicted verdict, or in trace
    validation the logged one when the statement is silent) *)
 Live(h) == area[h] # 0
+IsView(h) == view[h].p # 0
+IsBuf(h) == Live(h) /\ ~IsView(h)
 Owners(a) == Cardinality({x \in Handles : area[x] = a})
-Shared(h) == Owners(area[h]) > 1
+\* what the (possibly broken) write-permission rule counts
+CountedOwners(a) == Cardinality({x \in Handles : area[x] = a /\ (Variant = "view_not_owner" => ~IsView(x))})
+Shared(h) == CountedOwners(area[h]) > 1
 FullWin(g, W, H) == [hmpre |-> g.hmpre, hmsize |-> W \div g.mp, hmapp |-> g.hmapp,
                      vpre |-> g.vpre, vsize |-> H, vapp |-> g.vapp]
+Sees(h) == IF IsView(h) THEN ViewBytes(geo, content[area[h]], view[h])
+           ELSE Visible(geo, content[area[h]], win[h])
 
 DoAlloc(h, W, H, res) ==
   /\ ~Live(h)
@@ -224,12 +260,13 @@ DoAlloc(h, W, H, res) ==
   /\ last' = [op |-> IF geo.kind = "sound" THEN "salloc" ELSE "alloc", h |-> h, W |-> W, H |-> H, res |-> res,
               size |-> IF res = "ok" THEN AreaSize(geo, [hm |-> W \div geo.mp + geo.hmpre + geo.hmapp,
                                                           v |-> H + geo.vpre + geo.vapp]) ELSE 0]
-  /\ UNCHANGED <<geo, nextk>>
+  /\ UNCHANGED <<geo, nextk, view>>
 
 DoDup(h, s) ==
   /\ ~Live(h) /\ Live(s)
   /\ area' = [area EXCEPT ![h] = area[s]]
   /\ win' = [win EXCEPT ![h] = win[s]]
+  /\ view' = [view EXCEPT ![h] = view[s]]
   /\ last' = [op |-> "dup", h |-> h, src |-> s, res |-> "ok"]
   /\ UNCHANGED <<geo, canv, content, nextk>>
 
@@ -237,27 +274,30 @@ DoFree(h) ==
   /\ Live(h)
   /\ area' = [area EXCEPT ![h] = 0]
   /\ win' = [win EXCEPT ![h] = NoWin]
-  /\ last' = [op |-> "free", h |-> h, res |-> "ok"]
+  /\ view' = [view EXCEPT ![h] = NoView]
+  /\ last' = [op |-> "free", h |-> h, res |-> "ok",
+              \* the memory goes with its last owner
+              released |-> IF Owners(area[h]) = 1 THEN 1 ELSE 0]
   /\ UNCHANGED <<geo, canv, content, nextk>>
 
 DoResize(h, q, res) ==
-  /\ Live(h) /\ geo.kind = "pic"
+  /\ IsBuf(h) /\ geo.kind = "pic"
   /\ Compat(ResizeVerdict(geo, win[h], q), res)
   /\ win' = [win EXCEPT ![h] = IF res = "ok" THEN RWin(geo, win[h], RNorm(geo, win[h], q)) ELSE @]
   /\ last' = [op |-> "resize", h |-> h, q |-> q, res |-> res,
               W |-> WinW(geo, win'[h]), H |-> win'[h].vsize]
-  /\ UNCHANGED <<geo, area, canv, content, nextk>>
+  /\ UNCHANGED <<geo, area, view, canv, content, nextk>>
 
 DoSResize(h, q, res) ==
-  /\ Live(h) /\ geo.kind = "sound"
+  /\ IsBuf(h) /\ geo.kind = "sound"
   /\ Compat(SResizeVerdict(win[h], q), res)
   /\ win' = [win EXCEPT ![h] = IF res = "ok" THEN SRWin(win[h], SRNorm(win[h], q)) ELSE @]
   /\ last' = [op |-> "sresize", h |-> h, q |-> q, res |-> res, W |-> win'[h].hmsize, H |-> 1]
-  /\ UNCHANGED <<geo, area, canv, content, nextk>>
+  /\ UNCHANGED <<geo, area, view, canv, content, nextk>>
 
 \* mapping (observer): r = [ho, vo, hs, vs]; sound: vo = 0, vs = -1
 DoMap(h, p, r, mode, res) ==
-  /\ Live(h) /\ p \in PlaneIds(geo)
+  /\ IsBuf(h) /\ p \in PlaneIds(geo)
   /\ Compat(MapVerdict(geo, win[h], p, r, Shared(h), mode), res)
   /\ LET n == MapNorm(geo, win[h], r)
          c == canv[area[h]]
@@ -271,32 +311,94 @@ DoMap(h, p, r, mode, res) ==
                  \* layout prediction (detailed: a different layout is model drift)
                  off |-> IF res = "ok" THEN CellOff(geo, c, p, CX0(geo, win[h], p, n), CY0(geo, win[h], p, n)) ELSE 0,
                  stride |-> Stride(geo, c, p)]
-  /\ UNCHANGED <<geo, win, area, canv, content, nextk>>
+  /\ UNCHANGED <<geo, win, area, view, canv, content, nextk>>
+
+WriteVerdict(h) == IF Shared(h) /\ Variant # "cow_off" THEN "busy" ELSE "ok"
 
 \* write a position code through a write mapping of the whole window
 DoFill(h, k, res) ==
-  /\ Live(h)
-  /\ Compat(IF Shared(h) /\ Variant # "cow_off" THEN "busy" ELSE "ok", res)
+  /\ IsBuf(h)
+  /\ Compat(WriteVerdict(h), res)
   /\ content' = IF res = "ok"
-                THEN [content EXCEPT ![area[h]] = Append(@, [k |-> k, w |-> win[h]])]
+                THEN [content EXCEPT ![area[h]] = Append(@, [t |-> "fill", k |-> k, w |-> win[h]])]
                 ELSE content
   /\ nextk' = IF res = "ok" /\ k >= nextk THEN k + 1 ELSE nextk
   /\ last' = [op |-> "fill", h |-> h, k |-> k, res |-> res, owners |-> Owners(area[h])]
-  /\ UNCHANGED <<geo, win, area, canv>>
+  /\ UNCHANGED <<geo, win, area, view, canv>>
+
+\* write one cell (pixel x, line y of the window) through its own write mapping
+PokeReq(g, p, x, y) == [ho |-> x, vo |-> y, hs |-> HGran(g, p), vs |-> VGran(g, p)]
+DoPoke(h, p, x, y, k, res) ==
+  /\ IsBuf(h) /\ p \in PlaneIds(geo)
+  /\ Compat(MapVerdict(geo, win[h], p, PokeReq(geo, p, x, y), Shared(h), "w"), res)
+  /\ LET n == MapNorm(geo, win[h], PokeReq(geo, p, x, y))
+     IN content' = IF res = "ok"
+                   THEN [content EXCEPT ![area[h]] =
+                           Append(@, [t |-> "poke", k |-> k, p |-> p,
+                                      cx |-> CX0(geo, win[h], p, n), cy |-> CY0(geo, win[h], p, n)])]
+                   ELSE content
+  /\ nextk' = IF res = "ok" /\ k >= nextk THEN k + 1 ELSE nextk
+  /\ last' = [op |-> "poke", h |-> h, p |-> p, x |-> x, y |-> y, k |-> k, res |-> res,
+              owners |-> Owners(area[h])]
+  /\ UNCHANGED <<geo, win, area, view, canv>>
 
 \* read everything back (observer)
 DoCheck(h) ==
-  /\ Live(h)
+  /\ IsBuf(h)
   /\ last' = [op |-> "check", h |-> h, res |-> "ok",
               bytes |-> Visible(geo, content[area[h]], win[h])]
-  /\ UNCHANGED <<geo, win, area, canv, content, nextk>>
+  /\ UNCHANGED <<geo, win, area, view, canv, content, nextk>>
+
+\* block view of plane p of buffer s (x: the view; in trace validation stride and
+\* size are the logged ones, the generator predicts them from the layout)
+PredView(s, p) ==
+  LET c == canv[area[s]]
+  IN [p |-> p, w |-> win[s],
+      stride |-> IF geo.kind = "sound" THEN 0 ELSE Stride(geo, c, p),
+      \* from the first to the last visible octet
+      size |-> IF geo.kind = "sound" \/ PNL(geo, win[s], p) = 0 THEN PNC(geo, win[s], p) * geo.planes[p].mps
+               ELSE Stride(geo, c, p) * (PNL(geo, win[s], p) - 1) + PNC(geo, win[s], p) * geo.planes[p].mps]
+DoView(h, s, x, res) ==
+  /\ ~Live(h) /\ IsBuf(s) /\ x.p \in PlaneIds(geo) /\ x.w = win[s]
+  /\ res \in {"ok", "null"}
+  /\ IF res = "ok"
+     THEN /\ area' = [area EXCEPT ![h] = area[s]]
+          /\ view' = [view EXCEPT ![h] = x]
+     ELSE UNCHANGED <<area, view>>
+  /\ last' = [op |-> "view", h |-> h, src |-> s, p |-> x.p, res |-> res, a |-> area[s],
+              stride |-> x.stride, size |-> x.size,
+              off |-> CellOff(geo, canv[area[s]], x.p, PX0(geo, win[s], x.p), PY0(geo, win[s], x.p))]
+  /\ UNCHANGED <<geo, win, canv, content, nextk>>
+
+DoBRead(h) ==
+  /\ Live(h) /\ IsView(h)
+  /\ last' = [op |-> "bread", h |-> h, res |-> "ok",
+              bytes |-> ViewBytes(geo, content[area[h]], view[h])]
+  /\ UNCHANGED <<geo, win, area, view, canv, content, nextk>>
+
+\* write octet i of the block through a write mapping of that octet
+DoBPoke(h, i, v, res) ==
+  /\ Live(h) /\ IsView(h) /\ ViewInWindow(geo, view[h], i)
+  /\ Compat(WriteVerdict(h), res)
+  /\ LET x == view[h]
+     IN content' = IF res = "ok"
+                   THEN [content EXCEPT ![area[h]] =
+                           Append(@, [t |-> "octet", p |-> x.p,
+                                      cx |-> PX0(geo, x.w, x.p) + VCol(x, i) \div geo.planes[x.p].mps,
+                                      cy |-> PY0(geo, x.w, x.p) + VLine(x, i),
+                                      b |-> VCol(x, i) % geo.planes[x.p].mps, v |-> v])]
+                   ELSE content
+  /\ nextk' = IF res = "ok" THEN nextk + 1 ELSE nextk
+  /\ last' = [op |-> "bpoke", h |-> h, i |-> i, v |-> v, res |-> res, owners |-> Owners(area[h])]
+  /\ UNCHANGED <<geo, win, area, view, canv>>
 
 -----------------------------------------------------------------------------
 (* state machines *)
 NoGeo == [kind |-> "none"]
-Init == /\ geo \in Geos
+Init == /\ geo \in UNION {GeoSet(t) : t \in Geos}
         /\ win = [h \in Handles |-> NoWin]
         /\ area = [h \in Handles |-> 0]
+        /\ view = [h \in Handles |-> NoView]
         /\ canv = <<>> /\ content = <<>> /\ nextk = 1
         /\ last = [op |-> "init", res |-> "ok"]
         /\ hist = <<>> /\ nops = 0 /\ nrs = 0 /\ pick = ""
@@ -307,37 +409,52 @@ MapModes == IF Cardinality(Handles) > 1 THEN {"r", "w"} ELSE {"r"}
 Decided(v) == v \in {"ok", "invalid", "busy", "null"}
 
 OpAlloc == \E h \in Handles, d \in geo.req.allocs :
-             DoAlloc(h, d[1], d[2], AllocVerdict(geo, d[1], d[2])) /\ UNCHANGED nrs
+             /\ Decided(AllocVerdict(geo, d[1], d[2]))
+             /\ DoAlloc(h, d[1], d[2], AllocVerdict(geo, d[1], d[2])) /\ UNCHANGED nrs
 OpDup == \E h, s \in Handles : DoDup(h, s) /\ UNCHANGED nrs
 OpFree == \E h \in Handles : DoFree(h) /\ UNCHANGED nrs
 OpResize == /\ nrs < MaxResize
             /\ nrs' = nrs + 1
             /\ IF geo.kind = "sound"
                THEN \E h \in Handles, q \in geo.req.resizes :
-                      /\ Live(h) /\ Decided(SResizeVerdict(win[h], q))
+                      /\ IsBuf(h) /\ Decided(SResizeVerdict(win[h], q))
                       /\ DoSResize(h, q, SResizeVerdict(win[h], q))
                ELSE \E h \in Handles, q \in geo.req.resizes :
-                      /\ Live(h) /\ Decided(ResizeVerdict(geo, win[h], q))
+                      /\ IsBuf(h) /\ Decided(ResizeVerdict(geo, win[h], q))
                       /\ DoResize(h, q, ResizeVerdict(geo, win[h], q))
 OpMap == \E h \in Handles, p \in PlaneIds(geo), r \in geo.req.maps, m \in MapModes :
-           /\ Live(h) /\ Decided(MapVerdict(geo, win[h], p, r, Shared(h), m))
+           /\ IsBuf(h) /\ Decided(MapVerdict(geo, win[h], p, r, Shared(h), m))
            /\ DoMap(h, p, r, m, MapVerdict(geo, win[h], p, r, Shared(h), m))
            /\ UNCHANGED nrs
 OpFill == \E h \in Handles :
-            /\ Live(h) /\ nextk <= geo.req.fills
-            /\ DoFill(h, nextk, IF Shared(h) /\ Variant # "cow_off" THEN "busy" ELSE "ok")
+            /\ IsBuf(h) /\ nextk <= geo.req.fills
+            /\ DoFill(h, nextk, WriteVerdict(h))
+            /\ UNCHANGED nrs
+OpPoke == \E h \in Handles, p \in PlaneIds(geo), d \in geo.req.pokes :
+            /\ IsBuf(h) /\ nextk <= geo.req.fills
+            /\ Decided(MapVerdict(geo, win[h], p, PokeReq(geo, p, d[1], d[2]), Shared(h), "w"))
+            /\ DoPoke(h, p, d[1], d[2], nextk,
+                      MapVerdict(geo, win[h], p, PokeReq(geo, p, d[1], d[2]), Shared(h), "w"))
             /\ UNCHANGED nrs
 OpCheck == \E h \in Handles : DoCheck(h) /\ UNCHANGED nrs
+OpView == \E h, s \in Handles, p \in PlaneIds(geo) :
+            /\ IsBuf(s) /\ DoView(h, s, PredView(s, p), "ok") /\ UNCHANGED nrs
+OpBRead == \E h \in Handles : DoBRead(h) /\ UNCHANGED nrs
+OpBPoke == \E h \in Handles, i \in geo.req.bpokes :
+             /\ Live(h) /\ IsView(h) /\ nextk <= geo.req.fills
+             /\ DoBPoke(h, i, 200 + nextk, WriteVerdict(h))
+             /\ UNCHANGED nrs
 
 Op(k) == CASE k = "alloc" -> OpAlloc [] k = "dup" -> OpDup [] k = "free" -> OpFree
            [] k = "resize" -> OpResize [] k = "map" -> OpMap [] k = "fill" -> OpFill
-           [] k = "check" -> OpCheck
+           [] k = "check" -> OpCheck [] k = "poke" -> OpPoke [] k = "view" -> OpView
+           [] k = "bread" -> OpBRead [] k = "bpoke" -> OpBPoke
 
-\* exhaustive exploration; observers (map, check) do not change the buffers:
-\* their states are leaves (continuing from them adds nothing)
+\* exhaustive exploration; observers (map, check, bread) do not change the
+\* buffers: their states are leaves (continuing from them adds nothing)
 McStep(k) == /\ nops < MaxOps
              /\ k \in geo.req.kinds
-             /\ last.op \notin {"map", "smap", "check"}
+             /\ last.op \notin {"map", "smap", "check", "bread"}
              /\ nops' = nops + 1
              /\ UNCHANGED <<hist, pick>>
 Alloc == McStep("alloc") /\ OpAlloc
@@ -346,25 +463,33 @@ Free == McStep("free") /\ OpFree
 Resize == McStep("resize") /\ OpResize
 Map == McStep("map") /\ OpMap
 Fill == McStep("fill") /\ OpFill
+Poke == McStep("poke") /\ OpPoke
 Check == McStep("check") /\ OpCheck
-McNext == Alloc \/ Dup \/ Free \/ Resize \/ Map \/ Fill \/ Check
+MkView == McStep("view") /\ OpView
+BRead == McStep("bread") /\ OpBRead
+BPoke == McStep("bpoke") /\ OpBPoke
+McNext == Alloc \/ Dup \/ Free \/ Resize \/ Map \/ Fill \/ Poke \/ Check \/ MkView \/ BRead \/ BPoke
 
 \* behaviour generator: the kind of operation is drawn first (balances the
 \* random walk), then its arguments
 Choose == /\ nops < MaxOps /\ pick = "" /\ pick' \in geo.req.kinds
-          /\ UNCHANGED <<geo, win, area, canv, content, nextk, last, hist, nops, nrs>>
+          /\ UNCHANGED <<geo, win, area, view, canv, content, nextk, last, hist, nops, nrs>>
 Perform == /\ nops < MaxOps /\ pick # "" /\ Op(pick) /\ pick' = ""
            /\ hist' = Append(hist, last') /\ nops' = nops + 1
 Skip == /\ nops < MaxOps /\ pick # "" /\ pick' = ""
-        /\ UNCHANGED <<geo, win, area, canv, content, nextk, last, hist, nops, nrs>>
-DrvNext == Choose \/ Perform \/ Skip
+        /\ UNCHANGED <<geo, win, area, view, canv, content, nextk, last, hist, nops, nrs>>
+\* the behaviour is complete: one more step, so that it is emitted once (the
+\* simulator evaluates invariants on every candidate successor)
+Finish == /\ nops = MaxOps /\ pick = "" /\ pick' = "done"
+          /\ UNCHANGED <<geo, win, area, view, canv, content, nextk, last, hist, nops, nrs>>
+DrvNext == Choose \/ Perform \/ Skip \/ Finish
 
 Spec == Init /\ [][McNext]_vars
 DrvSpec == Init /\ [][DrvNext]_vars
 
 \* the state without the bookkeeping counters; the arguments of a resize are
 \* irrelevant once it is done (CropPreserves is checked on the transition)
-View == <<geo, win, area, canv, content, nextk,
+View == <<geo, win, area, view, canv, content, nextk,
           IF last.op \in {"resize", "sresize"} THEN [op |-> "resize"] ELSE last,
           nrs, nops = MaxOps>>
 
@@ -372,15 +497,17 @@ GeoOut(g) == [kind |-> g.kind, name |-> g.name, mp |-> g.mp, planes |-> g.planes
               hmpre |-> g.hmpre, hmapp |-> g.hmapp, vpre |-> g.vpre, vapp |-> g.vapp,
               align |-> g.align, aoff |-> g.aoff, basemod |-> g.basemod]
 \* final audit of a behaviour: everything every live handle sees
-Final == [h \in Handles |-> IF Live(h) THEN Visible(geo, content[area[h]], win[h]) ELSE <<>>]
-Emit == (Record /\ nops = MaxOps) =>
+Final == [h \in Handles |-> IF ~Live(h) THEN [k |-> "none"]
+                            ELSE IF IsView(h) THEN [k |-> "view", bytes |-> Sees(h)]
+                            ELSE [k |-> "buf", bytes |-> Sees(h)]]
+Emit == (Record /\ pick = "done") =>
           PrintT(<<"BEH", ToJson([geo |-> GeoOut(geo), ops |-> hist, final |-> Final])>>)
 
 -----------------------------------------------------------------------------
 (* properties *)
 WindowsInCanvas ==
   \A h \in Handles : Live(h) =>
-    LET w == win[h]
+    LET w == IF IsView(h) THEN view[h].w ELSE win[h]
         c == canv[area[h]]
     IN /\ w.hmpre >= 0 /\ w.hmsize >= 0 /\ w.hmapp >= 0 /\ w.vpre >= 0 /\ w.vsize >= 0 /\ w.vapp >= 0
        /\ w.hmpre + w.hmsize + w.hmapp = c.hm /\ w.vpre + w.vsize + w.vapp = c.v
@@ -426,12 +553,10 @@ AllocGranular ==
 \* C02: a writable mapping only while the memory has a single owner
 WriteOnlySingle ==
   /\ (IsMap /\ last.mode = "w" /\ last.res = "ok") => last.owners = 1
-  /\ (last.op = "fill" /\ last.res = "ok") => last.owners = 1
+  /\ (last.op \in {"fill", "poke", "bpoke"} /\ last.res = "ok") => last.owners = 1
 \* a duplicate sees what its source sees
-DupSees == last.op = "dup" =>
-             Visible(geo, content[area[last.h]], win[last.h]) = Visible(geo, content[area[last.src]], win[last.src])
+DupSees == last.op = "dup" => Sees(last.h) = Sees(last.src)
 
-Pix(h, p, cx, cy) == ValueAt(geo, content[area[h]], p, cx, cy)
 \* cropping / extending keeps every pixel that stays visible: window cell
 \* (i, j) after Resize(hskip, vskip, ..) is the former cell (i + hskip, j + vskip)
 CropPreserves ==
@@ -443,15 +568,17 @@ CropPreserves ==
        IN \A p \in PlaneIds(geo) :
             \A i \in 0..(PNC(geo, win'[h], p) - 1), j \in 0..(PNL(geo, win'[h], p) - 1) :
               (i + dx(p) \in 0..(PNC(geo, win[h], p) - 1) /\ j + dy(p) \in 0..(PNL(geo, win[h], p) - 1)) =>
-                ValueAt(geo, content'[area'[h]], p, PX0(geo, win'[h], p) + i, PY0(geo, win'[h], p) + j)
-                  = ValueAt(geo, content[area[h]], p, PX0(geo, win[h], p) + i + dx(p), PY0(geo, win[h], p) + j + dy(p))]_vars
+                \A b \in 0..(geo.planes[p].mps - 1) :
+                  ByteAt(geo, content'[area'[h]], p, PX0(geo, win'[h], p) + i, PY0(geo, win'[h], p) + j, b)
+                    = ByteAt(geo, content[area[h]], p, PX0(geo, win[h], p) + i + dx(p), PY0(geo, win[h], p) + j + dy(p), b)]_vars
 \* C02: what a handle sees changes only by a write through that very handle
 Isolation ==
   [][content' = content \/ \A h \in Handles :
-       (Live(h) /\ area'[h] = area[h] /\ win'[h] = win[h]) =>
-         \/ Visible(geo, content'[area[h]], win[h]) = Visible(geo, content[area[h]], win[h])
-         \/ (last'.op = "fill" /\ last'.h = h)]_vars
-\* C02: cut / resize / dup / free / map never modify memory
+       (Live(h) /\ area'[h] = area[h] /\ win'[h] = win[h] /\ view'[h] = view[h]) =>
+         \/ (IF IsView(h) THEN ViewBytes(geo, content'[area[h]], view[h])
+                          ELSE Visible(geo, content'[area[h]], win[h])) = Sees(h)
+         \/ (last'.op \in {"fill", "poke", "bpoke"} /\ last'.h = h)]_vars
+\* C02: cut / resize / dup / view / free / map never modify memory
 StructuralOpsDontWrite ==
-  [][last'.op # "fill" => \A a \in 1..Len(content) : content'[a] = content[a]]_vars
+  [][last'.op \notin {"fill", "poke", "bpoke"} => \A a \in 1..Len(content) : content'[a] = content[a]]_vars
 =============================================================================
